@@ -37,5 +37,10 @@ Ordered(le, e) == IF IsLittle(e) THEN le ELSE Rev(le)
 WBytes(bits) == (bits + 7) \div 8
 PackBytes(v, bits, e) == Ordered(IntBytes(v, WBytes(bits)), e)
 UnpackVal(b, e, sign) == IntVal(Ordered(b, e), sign)     \* Ordered is an involution: big-endian bytes reversed are little-endian
+\* pack without a width: the fewest whole bytes that hold the value - unsigned for v >= 0 (none at all for 0), two's complement
+\* with room for the sign bit for v < 0
+MinWidth(v) == IF ~v.neg THEN Len(v.mag)
+               ELSE CHOOSE w \in 1..(Len(v.mag) + 1) : FitsInt(v, w, TRUE) /\ (w = 1 \/ ~FitsInt(v, w - 1, TRUE))
+PackMin(v, e) == Ordered(IntBytes(v, MinWidth(v)), e)
 SwapVal(v, bits) == IntVal(Rev(IntBytes(v, WBytes(bits))), FALSE)
 =============================================================================
